@@ -11,7 +11,7 @@ pub fn def() -> PropDef {
     PropDef {
         info: PropInfo {
             id: "C14",
-            rule: "strings from three generators: (a) token soup over the assembler alphabet - mnemonics, registers with 1-40 digit numbers, identifiers of up to 80 Unicode letters/digits of 1-4 bytes each, decimal and hexadecimal literals of 1-80 digits with every sign combination, the extreme values around 2^63 and 2^64, brackets, commas, truncated operands; (b) arbitrary Unicode strings; (c) valid texts from the C13 generator with 1-3 character-level mutations. Oracle: assemble() returns under catch_unwind (Ok or Err); inputs are at most a few KiB so the work is bounded; a single call slower than 2 s is reported as inconclusive, not as a violation. Non-trivial = input containing a numeric literal of >= 19 digits, a sign, or a bracket; distinct by hash.",
+            rule: "strings from three generators: (a) token soup over the assembler alphabet - mnemonics, registers with 1-40 digit numbers, identifiers of up to 80 Unicode letters/digits of 1-4 bytes each, decimal and hexadecimal literals of 1-80 digits with every sign combination, the extreme values around 2^63 and 2^64, brackets, commas, truncated operands; (b) arbitrary Unicode strings; (c) valid texts from the C13 generator with 1-3 character-level mutations. Oracle: assemble() returns under catch_unwind (Ok or Err); inputs are at most a few KiB so the work is bounded; a single call slower than 20 s is reported as inconclusive, not as a violation. Non-trivial = input containing a numeric literal of >= 19 digits, a sign, or a bracket; distinct by hash.",
             assumptions: &["a panic anywhere below assemble() unwinds (the harness is built with panic=unwind)"],
         },
         run,
@@ -27,7 +27,7 @@ pub fn check_total(text: &str) -> Verdict {
     let el = start.elapsed().as_secs_f64();
     match r {
         Err(m) => Verdict::fail(panic_signature(&m), format!("assemble panicked on {text:?}: {m}")),
-        Ok(_) if el > 2.0 => Verdict::Inconclusive(format!("assemble took {el:.1}s on a {}-byte input", text.len())),
+        Ok(_) if el > 20.0 => Verdict::Inconclusive(format!("assemble took {el:.1}s on a {}-byte input", text.len())),
         Ok(_) => Verdict::Pass,
     }
 }
